@@ -123,6 +123,20 @@ def stage2(pid, path):
     return p.returncode == 1, p.stdout
 
 
+def tree_identity():
+    """which source tree this run exercised (path, HEAD, whether the working tree differs from HEAD)"""
+    import subprocess
+    repo = os.environ.get('VERIF_REPO', '/repo')
+    out = {'path': repo}
+    try:
+        out['head'] = subprocess.run(['git', '-C', repo, 'rev-parse', '--short', 'HEAD'], stdout=subprocess.PIPE, stderr=subprocess.DEVNULL, text=True).stdout.strip()
+        st = subprocess.run(['git', '-C', repo, 'status', '--porcelain', '--', 'spyne'], stdout=subprocess.PIPE, stderr=subprocess.DEVNULL, text=True).stdout
+        out['working_tree_modified'] = bool(st.strip())
+    except Exception as e:
+        out['error'] = repr(e)
+    return out
+
+
 def main():
     ap = argparse.ArgumentParser()
     ap.add_argument('pid')
@@ -246,12 +260,16 @@ def main():
         cov['notes'] = dict(agg.notes.most_common(60))
     if hasattr(mod, 'finish'):
         cov.update(mod.finish(tier, agg) or {})
+    cov['tree'] = tree_identity()
     ev = {
         'property_id': pid, 'tier': tier, 'seed': seed, 'level': mod.LEVEL,
         'coverage': cov, 'assumptions': list(getattr(mod, 'ASSUMPTIONS', [])),
         'wall_s': round(wall, 2), 'violations': confirmed_unknown,
     }
-    evdir = os.path.join(VERIF, 'scratch' if a.only else 'evidence')
+    # evidence/ only ever describes runs against /repo itself: runs against another tree (VERIF_REPO, e.g. a scratch
+    # worktree with a seeded change) and filtered debug runs go to scratch/
+    other_tree = os.path.realpath(os.environ.get('VERIF_REPO', '/repo')) != os.path.realpath('/repo')
+    evdir = os.path.join(VERIF, 'scratch', 'other-tree') if other_tree else os.path.join(VERIF, 'scratch' if a.only else 'evidence')
     os.makedirs(evdir, exist_ok=True)
     with open(os.path.join(evdir, pid + '.json'), 'w') as f:
         json.dump(ev, f, indent=1, sort_keys=True, default=str)
